@@ -1,11 +1,12 @@
 import BridgeVerif.Translated.EncBase
 import BridgeVerif.Spec.Scoring
-/-! `calc_bid_score` AS TRANSLATED, on the bids of level 3 (kernel evaluation of the translated program; see Score.lean) -/
+/-! `calc_bid_score` AS TRANSLATED, on the bids of level 3 (kernel evaluation of the translated program with 80 levels of
+fuel; Score.lean lifts it to every larger fuel by `mkRec_mono`) -/
 namespace Bridge.Translated
 open Bridge.Py Bridge.Generated.PyCore
 
 theorem calc_bid_score_level2 : ∀ k : Fin 5, ∀ x xx vul : Bool, ∀ t : Fin 14,
-    (fn n_calc_bid_score [encBid ⟨5 * 2 + k.val, by omega⟩, .bool x, .bool xx, .bool vul, .int t.val]).int?
+    (cbsAt 80 [encBid ⟨5 * 2 + k.val, by omega⟩, .bool x, .bool xx, .bool vul, .int t.val]).int?
       = some (dupScore (bidLevel ⟨5 * 2 + k.val, by omega⟩) (bidDenom ⟨5 * 2 + k.val, by omega⟩)
           (if xx then .xx else if x then .x else .none) vul t.val) := by
   decide +kernel
